@@ -391,4 +391,42 @@ example :
 
 end Examples
 
+/-! ## 4. The order of the `SetRedirectPolicy` arguments -/
+
+/-- **policy_order_irrelevant_for_delivery**: two clients whose `SetRedirectPolicy` arguments
+(built from redirect.go's constructors, `nil` included) are permutations of each other send, for
+every initial request and every script, the SAME requests: same number, same URLs, methods, `Host`
+fields, bodies, and the same values under every header name. In particular
+`SetRedirectPolicy(AlwaysCopyHeaderRedirectPolicy(h), SameHostRedirectPolicy())` delivers the copied
+header to exactly the hosts `SetRedirectPolicy(SameHostRedirectPolicy(), AlwaysCopy…(h))` does: the
+closure hands a request to the transport only after EVERY policy ran, so a copy made by an earlier
+argument never reaches the wire of a host a later argument refuses. (Only WHICH error the caller
+sees — a refusal or the last response — can depend on the order: `compose_first_refusal`.) -/
+theorem policy_order_irrelevant_for_delivery (ds ds' : List PolicyDesc) (hperm : ds.Perm ds')
+    (jar getBody noBody : Bool) (ireq : Loop.Req) (script : List Reply) :
+    let a := (start { ps := ds.map PolicyDesc.denote, jar := jar, getBody := getBody, noBody := noBody } ireq script).1
+    let b := (start { ps := ds'.map PolicyDesc.denote, jar := jar, getBody := getBody, noBody := noBody } ireq script).1
+    a.length = b.length ∧
+    ∀ k (hk : k < a.length) (hk' : k < b.length),
+      a[k].url = b[k].url ∧ a[k].method = b[k].method ∧ a[k].hostField = b[k].hostField ∧
+      a[k].body = b[k].body ∧ ∀ key, a[k].hdr.values key = b[k].hdr.values key := by
+  have h := run_perm ds ds' hperm
+    { ps := ds.map PolicyDesc.denote, jar := jar, getBody := getBody, noBody := noBody }
+    { ps := ds'.map PolicyDesc.denote, jar := jar, getBody := getBody, noBody := noBody }
+    rfl rfl rfl rfl rfl script
+    { copier := Copier.init jar ireq.hdr } { copier := Copier.init jar ireq.hdr } ireq ireq
+    .nil rfl rfl rfl (ReqEq.refl _)
+  refine ⟨h.length_eq, ?_⟩
+  intro k hk hk'
+  have := h.get k hk hk'
+  exact ⟨this.url, this.method, this.hostField, this.body, this.hdr⟩
+
+/-- Order matters only for the kind of error: NoRedirect first gives the last response, Max(0)
+first a refusal; either way one request. -/
+example :
+    let ireq : Loop.Req := { url := { host := aCom }, method := mGET }
+    let sc : List Reply := [{ status := 302, loc := .abs .http none bCom p1 }]
+    start { ps := [PolicyDesc.no, .max 0].map PolicyDesc.denote } ireq sc = ([ireq], .useLast 302) ∧
+    start { ps := [PolicyDesc.max 0, .no].map PolicyDesc.denote } ireq sc = ([ireq], .refused 302) := by decide
+
 end Req.Props.C11Loop
